@@ -24,15 +24,31 @@ func c06Configs(thorough bool) (cfgs []poolCfg, bounds []int) {
 	conc := []string{"ExecuteConcurrent", "ExecuteMixModel", "ExecuteNSortMConcurrent", "ExecuteDAGModel"}
 	bs, bc := 2, 1
 	if thorough {
-		bs, bc = 3, 2
+		bc = 2
 	}
 	for _, meth := range seq {
-		add(poolCfg{Min: 1, Max: 2, EM: engine.SortModel, Method: meth, Clients: [][]reqSpec{{with}, {without}, {with}}}, bs)
+		b3 := bs
+		if thorough && meth == "Execute" {
+			b3 = 3 // three deviations for one representative method (does not finish for all within the budget)
+		}
+		add(poolCfg{Min: 1, Max: 2, EM: engine.SortModel, Method: meth, Clients: [][]reqSpec{{with}, {without}, {with}}}, b3)
 		add(poolCfg{Min: 1, Max: 2, EM: engine.SortModel, Method: meth, Clients: [][]reqSpec{{with, without}, {without, with}}}, bs)
 		if thorough {
 			add(poolCfg{Min: 1, Max: 2, EM: engine.SortModel, Method: meth, Clients: [][]reqSpec{{pn, without}, {with, with}}}, bs)
 			add(poolCfg{Min: 2, Max: 3, EM: engine.SortModel, Method: meth, Clients: [][]reqSpec{{with}, {without}, {with}, {without}}}, 2)
 		}
+	}
+	// a request in which no rule returns anything: its (empty) result map must stay empty afterwards
+	nr := reqSpec{Mode: modeNoRet, Other: true}
+	for _, meth := range []string{"Execute", "ExecuteConcurrent", "ExecuteMixModel", "ExecuteInverseMixModel", "ExecuteDAGModel", "ExecuteSelectedRules"} {
+		add(poolCfg{Min: 1, Max: 2, EM: engine.SortModel, Method: meth, Clients: [][]reqSpec{{nr, with, nr, without}}}, 1)
+	}
+	// a request parked inside its rule (gate) on an instance that was just handed back: whatever the
+	// previous request still does to that instance's data context hits it
+	gt := reqSpec{Mode: modeGate, Other: true}
+	if thorough {
+		// three deviations are needed before anything can go wrong here: thorough tier only
+		add(poolCfg{Min: 1, Max: 2, EM: engine.SortModel, Method: "ExecuteRulesWithSpecifiedEM", GateAfter: 1, Clients: [][]reqSpec{{with}, {gt}, {gt}}}, 3)
 	}
 	for _, meth := range conc {
 		add(poolCfg{Min: 1, Max: 2, EM: engine.SortModel, Method: meth, Clients: [][]reqSpec{{with, without}, {without, with}}}, bc)
@@ -78,10 +94,10 @@ func init() {
 	hx.Register(&hx.Prop{
 		ID:          "C06",
 		Workers:     func(string) int { return 16 },
-		BudgetQuick: 170 * time.Second,
+		BudgetQuick: 300 * time.Second,
 		BudgetThor:  30 * time.Minute,
 		Kind:        "schedules",
-		Rule: "pool (1,2) [thorough also (2,3)]: 3 clients x 1 request and 2 clients x 2 requests (instances reused), some requests injecting an extra key `other`, through 4 sequential-model and 4 goroutine-spawning execute methods, every schedule with <=2 (thorough 3) deviations from the default scheduler (delay bounding); plus all 24 execute methods x applicable execution models with sequential reuse (incl. requests with an empty name list / empty DAG after ordinary ones) and two overlapping requests; " +
+		Rule: "pool (1,2) [thorough also (2,3)]: 3 clients x 1 request and 2 clients x 2 requests (instances reused), some requests injecting an extra key `other`, through 4 sequential-model and 4 goroutine-spawning execute methods, every schedule with <=2 deviations from the default scheduler (delay bounding; thorough: 3 for one representative method, 2 instead of 1 for the goroutine-spawning methods, more client mixes and pool (2,3)); plus all 24 execute methods x applicable execution models with sequential reuse (incl. requests with an empty name list / empty DAG after ordinary ones) and two overlapping requests; " +
 			"after quiescence a deterministic probe phase sends requests that inject nothing to every instance. Oracle: every observer call inside a rule sees only its own request's ids/keys, the host response object and every result-map value are computed from the own request, a handed-back result map is never modified later, probes find no data of earlier requests",
 		Assume:  []string{"injected functions terminate", "sequentially consistent memory (races are C19's subject)", "the host does not share objects between requests on purpose"},
 		Run:     func(c *hx.Ctx) { cfgs, b := c06Configs(c.Thorough()); runPoolConfigs(c, "C06", cfgs, b) },
